@@ -865,3 +865,36 @@ def loop_stagnant_cycle(fn, loop, var, flags=()):
         if p is not None:
             return [head] + p
     return None
+
+
+# --------------------------------------------------------------------------- container traversals
+def ordered_traversals(fn, member_qp):
+    """loops of fn that visit every element of the member container `member_qp` once, in container order:
+       a range-for over it, or `for (it = M.begin(); it != M.end(); ++it)` whose iterator is stepped nowhere else.
+    Returns [(loop node, head node)] where head is a node of the loop header that has a CFG vertex (the range expression / the condition)."""
+    out = []
+    for n in fn.all_nodes():
+        if n.k == 'CXXForRangeStmt' and n.child('range') is not None and refers_to_member(n.child('range'), member_qp):
+            out.append((n, n.child('range')))
+        elif n.k == 'ForStmt' and n.child('init') is not None and n.child('cond') is not None and n.child('inc') is not None:
+            init, cond, inc = n.child('init'), n.child('cond'), n.child('inc')
+            if init.k != 'DeclStmt' or len(init.r.get('decls', [])) != 1:
+                continue
+            it, ini = init.r['decls'][0]
+            if ini < 0:
+                continue
+            ie = Node(fn, ini)
+            starts = any(x.is_call and x.callee is not None and x.callee.get('n') in ('begin', 'cbegin') and x.obj is not None and refers_to_member(x.obj, member_qp) for x in ie.walk())
+            cs = cond.strip(casts=True)
+            ends = (cs.is_call and cs.r.get('op') == '!=' or (cs.k == 'BinaryOperator' and cs.op == '!=')) and \
+                any(x.k == 'DeclRefExpr' and x.declid == it for x in cs.walk()) and \
+                any(x.is_call and x.callee is not None and x.callee.get('n') in ('end', 'cend') and x.obj is not None and refers_to_member(x.obj, member_qp) for x in cs.walk())
+            si = inc.strip(casts=True)
+            steps = ((si.is_call and si.r.get('op') == '++') or (si.k == 'UnaryOperator' and si.op == '++')) and any(x.k == 'DeclRefExpr' and x.declid == it for x in si.walk())
+            others = [d for d in local_defs(fn, it) if d[1] != 'init' and d[0] != si and not any(a == inc for a in d[0].ancestors())]
+            others = [d for d in others if d[1] in ('assign', 'opassign', 'incdec')]
+            if starts and ends and steps and not others:
+                heads = [x for x in cond.walk() if fn.cfg.has_vertex(x)]
+                if heads:
+                    out.append((n, heads[0]))
+    return out
